@@ -1035,6 +1035,13 @@ func (c *CEnv) callExpr(e *CE, hint *Value) Value {
 		}
 		comp := c.x.comp(c.heap(), a.Loc.Prefix, c.x.compSortFor(lf[0].Sort, len(a.Loc.Elems)+1))
 		return Value{K: KScalar, X: nestedSelect(comp, a.Loc.indices())}
+	case "elemindex":
+		// elemindex(p): the (absolute) index of the slice/array element an interior pointer p points to
+		a := c.eval(e.Args[0])
+		if a.K != KPtr || a.Loc == nil || len(a.Loc.Elems) == 0 {
+			c.fail("elemindex() needs a pointer to a slice or array element: %s", e)
+		}
+		return c.mathInt(a.Loc.Elems[len(a.Loc.Elems)-1])
 	case "addr":
 		// addr(v): the address of the local variable v of the function under contract (&v)
 		if len(e.Args) != 1 || e.Args[0].Kind != "id" || c.fr == nil {
